@@ -79,6 +79,7 @@ func genC05Case(t *rapid.T) C05Case {
 		spec.SPs[c.SP].AuthnRequestsSigned = rapid.SampledFrom([]string{"true", "1"}).Draw(t, "spflag")
 	}
 	c.Orig = genValidAuthn(t, spec, c.SP, c.Host)
+	maybePassive(t, &c.Orig)
 	c.Orig.ProtocolBinding = rapid.SampledFrom([]string{A, world.BindPost, world.BindRedirect}).Draw(t, "pb")
 	c.Style = genXMLStyle(t)
 	c.Binding = rapid.SampledFrom([]string{"post", "redirect"}).Draw(t, "binding")
